@@ -1,0 +1,181 @@
+//! This module renames shadowing binders apart before the translation. The translation moves the
+//! continuation of a term under the binders of that term (e.g., the body of a `let` under the
+//! patterns of a `case` in the bound term), so an inner binder with the same name as a variable,
+//! covariable or label that is visible from outside would capture occurrences in the continuation.
+//! Binders which do not shadow anything keep their names.
+
+use fun::syntax::{
+    context::Chirality,
+    declarations::Def,
+    names::{Var, fresh_name},
+    terms::{Clause, Term},
+};
+
+use std::collections::HashSet;
+use std::rc::Rc;
+
+/// The binders in scope: the name in the source, whether it is a covariable, and its current name.
+pub type Scope = Vec<(Var, bool, Var)>;
+
+fn lookup(scope: &Scope, name: &Var, covar: bool) -> Var {
+    scope
+        .iter()
+        .rev()
+        .find(|(source_name, is_covar, _)| source_name == name && *is_covar == covar)
+        .map_or_else(|| name.clone(), |(_, _, current_name)| current_name.clone())
+}
+
+/// This function picks the name for a binder: the binder keeps its name unless a binder with this
+/// name is visible already.
+fn bind(scope: &mut Scope, name: &Var, covar: bool, used: &mut HashSet<Var>) -> Var {
+    let new_name = if scope
+        .iter()
+        .any(|(_, _, current_name)| current_name == name)
+    {
+        fresh_name(used, name)
+    } else {
+        name.clone()
+    };
+    scope.push((name.clone(), covar, new_name.clone()));
+    new_name
+}
+
+fn rename_rc(term: Rc<Term>, scope: &mut Scope, used: &mut HashSet<Var>) -> Rc<Term> {
+    Rc::new(rename_shadowing(Rc::unwrap_or_clone(term), scope, used))
+}
+
+fn rename_clause(mut clause: Clause, scope: &mut Scope, used: &mut HashSet<Var>) -> Clause {
+    let scope_length = scope.len();
+    for (position, binding) in clause.context.bindings.iter_mut().enumerate() {
+        let new_name = bind(scope, &binding.var, binding.chi == Chirality::Cns, used);
+        if let Some(name) = clause.context_names.bindings.get_mut(position) {
+            name.clone_from(&new_name);
+        }
+        binding.var = new_name;
+    }
+    clause.body = rename_shadowing(clause.body, scope, used);
+    scope.truncate(scope_length);
+    clause
+}
+
+/// This function renames all binders in `term` which shadow a binder in `scope` (or an outer
+/// binder in `term`) to fresh names, together with their occurrences.
+/// - `scope` contains the binders visible from outside.
+/// - `used` contains all names used in the top-level function (fresh names are added).
+pub fn rename_shadowing(term: Term, scope: &mut Scope, used: &mut HashSet<Var>) -> Term {
+    match term {
+        Term::XVar(mut var) => {
+            var.var = lookup(scope, &var.var, var.chi == Some(Chirality::Cns));
+            var.into()
+        }
+        Term::Lit(lit) => lit.into(),
+        Term::Op(mut op) => {
+            op.fst = rename_rc(op.fst, scope, used);
+            op.snd = rename_rc(op.snd, scope, used);
+            op.into()
+        }
+        Term::IfC(mut ifc) => {
+            ifc.fst = rename_rc(ifc.fst, scope, used);
+            ifc.snd = ifc.snd.map(|snd| rename_rc(snd, scope, used));
+            ifc.thenc = rename_rc(ifc.thenc, scope, used);
+            ifc.elsec = rename_rc(ifc.elsec, scope, used);
+            ifc.into()
+        }
+        Term::PrintI64(mut print) => {
+            print.arg = rename_rc(print.arg, scope, used);
+            print.next = rename_rc(print.next, scope, used);
+            print.into()
+        }
+        Term::Let(mut r#let) => {
+            r#let.bound_term = rename_rc(r#let.bound_term, scope, used);
+            r#let.variable = bind(scope, &r#let.variable, false, used);
+            r#let.in_term = rename_rc(r#let.in_term, scope, used);
+            scope.pop();
+            r#let.into()
+        }
+        Term::Call(mut call) => {
+            call.args.entries = call
+                .args
+                .entries
+                .into_iter()
+                .map(|arg| rename_shadowing(arg, scope, used))
+                .collect();
+            call.into()
+        }
+        Term::Constructor(mut ctor) => {
+            ctor.args.entries = ctor
+                .args
+                .entries
+                .into_iter()
+                .map(|arg| rename_shadowing(arg, scope, used))
+                .collect();
+            ctor.into()
+        }
+        Term::Destructor(mut dtor) => {
+            dtor.scrutinee = rename_rc(dtor.scrutinee, scope, used);
+            dtor.args.entries = dtor
+                .args
+                .entries
+                .into_iter()
+                .map(|arg| rename_shadowing(arg, scope, used))
+                .collect();
+            dtor.into()
+        }
+        Term::Case(mut case) => {
+            case.scrutinee = rename_rc(case.scrutinee, scope, used);
+            case.clauses = case
+                .clauses
+                .into_iter()
+                .map(|clause| rename_clause(clause, scope, used))
+                .collect();
+            case.into()
+        }
+        Term::New(mut new) => {
+            new.clauses = new
+                .clauses
+                .into_iter()
+                .map(|clause| rename_clause(clause, scope, used))
+                .collect();
+            new.into()
+        }
+        Term::Label(mut label) => {
+            label.label = bind(scope, &label.label, true, used);
+            label.term = rename_rc(label.term, scope, used);
+            scope.pop();
+            label.into()
+        }
+        Term::Goto(mut goto) => {
+            goto.target = lookup(scope, &goto.target, true);
+            goto.term = rename_rc(goto.term, scope, used);
+            goto.into()
+        }
+        Term::Exit(mut exit) => {
+            exit.arg = rename_rc(exit.arg, scope, used);
+            exit.into()
+        }
+        Term::Paren(mut paren) => {
+            paren.inner = rename_rc(paren.inner, scope, used);
+            paren.into()
+        }
+    }
+}
+
+/// This function renames the shadowing binders in the body of a top-level function apart. The
+/// parameters of the function are the outermost binders and keep their names.
+/// - `used` contains all names used in the top-level function (fresh names are added).
+pub fn rename_shadowing_in_def(mut def: Def, used: &mut HashSet<Var>) -> Def {
+    let mut scope: Scope = def
+        .context
+        .bindings
+        .iter()
+        .map(|binding| {
+            (
+                binding.var.clone(),
+                binding.chi == Chirality::Cns,
+                binding.var.clone(),
+            )
+        })
+        .collect();
+    def.body = rename_shadowing(def.body, &mut scope, used);
+    def
+}
